@@ -129,6 +129,9 @@ func VerifC13Stream() {
 	if bigMode {
 		verifAssume(kind == 0 || kind == 2 || kind == 5)
 	}
+	if k := verifParam("ONLYKIND"); k != 0 {
+		verifAssume(kind == k-1) // a variant of the harness that spends its schedule budget on one disturbance
+	}
 	kinds := []string{"none", "truncated-stream", "reader-error", "destination-failure", "destination-fails-from", "cancellation"}
 	verifTag("disturbance", kinds[kind])
 	pickBlock := func() int {
@@ -162,7 +165,11 @@ func VerifC13Stream() {
 	var wg sync.WaitGroup
 	for i := 0; i < n; i++ {
 		i := i
-		openName[i] = c13OpenNames[verifChoice(verifName("open", i), len(c13OpenNames))]
+		nNames := len(c13OpenNames)
+		if k := verifParam("NOPEN"); k != 0 {
+			nNames = k
+		}
+		openName[i] = c13OpenNames[verifChoice(verifName("open", i), nNames)]
 		verifTag(verifName("opens", i), openName[i])
 		wg.Add(1)
 		go func() {
